@@ -1,3 +1,374 @@
+import Bch.Proofs.Bloom
+/-
+Property C09 — BIP37 bloom filters: no false negatives, bit-exact BIP37, sizing within the wire
+limits, unloaded filter matches nothing.  All theorems are about the executable model
+`Bch.Model.Bloom` (which is tied to the Go code by differential testing).
+-/
 namespace Bch.Props.C09
-theorem placeholder : True := trivial
+open Bch Bch.Model.Bloom Bch.Proofs.Bloom
+
+/-! ## Spec side: MurmurHash3_x86_32 as in the reference implementation, and the BIP37 bit index -/
+
+namespace Spec
+
+def c1 : UInt32 := 0xcc9e2d51
+def c2 : UInt32 := 0x1b873593
+
+/-- `ROTL32(x, r) = (x << r) | (x >> (32 - r))` -/
+def rotl (x : UInt32) (r : UInt32) : UInt32 := (x <<< r) ||| (x >>> (32 - r))
+
+/-- `getblock32(blocks, i)`: the `i`-th 32-bit little-endian word of the data -/
+def getblock (data : Bytes) (i : Nat) : UInt32 :=
+  UInt32.ofNat ((data.getD (4 * i) 0).toNat + 2 ^ 8 * (data.getD (4 * i + 1) 0).toNat
+    + 2 ^ 16 * (data.getD (4 * i + 2) 0).toNat + 2 ^ 24 * (data.getD (4 * i + 3) 0).toNat)
+
+/-- one round of the body loop -/
+def round (h1 k1 : UInt32) : UInt32 :=
+  let k1 := k1 * c1
+  let k1 := rotl k1 15
+  let k1 := k1 * c2
+  let h1 := h1 ^^^ k1
+  let h1 := rotl h1 13
+  h1 * 5 + 0xe6546b64
+
+/-- body: `for i in 0 .. nblocks-1` with `nblocks = len / 4` -/
+def body (seed : UInt32) (data : Bytes) : UInt32 :=
+  (List.range (data.length / 4)).foldl (fun h1 i => round h1 (getblock data i)) seed
+
+/-- tail: the `switch (len & 3)` with fall-through of the reference implementation -/
+def tail (h1 : UInt32) (data : Bytes) : UInt32 :=
+  let t := data.drop (4 * (data.length / 4))
+  let k1 : UInt32 := 0
+  let k1 := if data.length % 4 ≥ 3 then k1 ^^^ ((t.getD 2 0).toUInt32 <<< 16) else k1
+  let k1 := if data.length % 4 ≥ 2 then k1 ^^^ ((t.getD 1 0).toUInt32 <<< 8) else k1
+  if data.length % 4 ≥ 1 then
+    let k1 := k1 ^^^ (t.getD 0 0).toUInt32
+    let k1 := k1 * c1
+    let k1 := rotl k1 15
+    let k1 := k1 * c2
+    h1 ^^^ k1
+  else h1
+
+/-- `fmix32` -/
+def fmix32 (h : UInt32) : UInt32 :=
+  let h := h ^^^ (h >>> 16)
+  let h := h * 0x85ebca6b
+  let h := h ^^^ (h >>> 13)
+  let h := h * 0xc2b2ae35
+  h ^^^ (h >>> 16)
+
+def murmur3 (seed : UInt32) (data : Bytes) : UInt32 :=
+  fmix32 (tail (body seed data) data ^^^ UInt32.ofNat data.length)
+
+end Spec
+
+/-- BIP37: bit number of hash function `i` for `item` in a filter of `nbytes` bytes:
+`MurmurHash3(i * 0xFBA4C795 + nTweak, item) % (nbytes * 8)`, the seed taken modulo 2^32. -/
+def BIP37idx (tweak : UInt32) (i : Nat) (item : Bytes) (nbytes : Nat) : Nat :=
+  (Spec.murmur3 (UInt32.ofNat ((i * 0xFBA4C795 + tweak.toNat) % 2 ^ 32)) item).toNat % (8 * nbytes)
+
+/-! ## MurmurHash3: model = reference -/
+
+/-- the block loop + tail of the model equal the reference formulation (index-based block loop,
+then the fall-through `switch` over the 1–3 tail bytes), for every seed and every input -/
+theorem C09_murmur_tail (h : UInt32) (data : Bytes) :
+    murmurBody h data = Spec.tail (Spec.body h data) data := by
+  symm
+  refine murmurBody_unique (fun h data => Spec.tail (Spec.body h data) data) ?_ ?_ ?_ ?_ ?_ h data
+  · intro h a b c d rest
+    have hlen : (a :: b :: c :: d :: rest).length / 4 = rest.length / 4 + 1 := by
+      simp only [List.length_cons]; omega
+    have hmod : (a :: b :: c :: d :: rest).length % 4 = rest.length % 4 := by
+      simp only [List.length_cons]; omega
+    have hbody : Spec.body h (a :: b :: c :: d :: rest)
+        = Spec.body (rotl32 (h ^^^ mixK (le32 a b c d)) 13 * 5 + 0xe6546b64) rest := by
+      have e0 : Spec.round h (Spec.getblock (a :: b :: c :: d :: rest) 0)
+          = rotl32 (h ^^^ mixK (le32 a b c d)) 13 * 5 + 0xe6546b64 := by
+        rw [le32_eq_ofNat]
+        simp only [Spec.round, Spec.getblock, Spec.rotl, Spec.c1, Spec.c2, mixK, rotl32,
+          Nat.mul_zero, Nat.zero_add, List.getD_cons_zero, List.getD_cons_succ]
+      have ef : (fun h1 i => Spec.round h1 (Spec.getblock (a :: b :: c :: d :: rest) (i + 1)))
+          = fun h1 i => Spec.round h1 (Spec.getblock rest i) := by
+        funext h1 i
+        have e : 4 * (i + 1) = 4 * i + 1 + 1 + 1 + 1 := by omega
+        simp only [Spec.getblock, e, List.getD_cons_succ]
+      unfold Spec.body
+      rw [hlen, List.range_succ_eq_map, List.foldl_cons, List.foldl_map, e0]
+      simp only [Nat.succ_eq_add_one, ef]
+    have htail : ∀ h', Spec.tail h' (a :: b :: c :: d :: rest) = Spec.tail h' rest := by
+      intro h'
+      have e : 4 * (rest.length / 4 + 1) = 4 * (rest.length / 4) + 1 + 1 + 1 + 1 := by omega
+      simp only [Spec.tail, hlen, hmod, e, List.drop_succ_cons]
+    simp only [hbody, htail]
+  · intro h a b c; simp [Spec.tail, Spec.body, Spec.rotl, Spec.c1, Spec.c2, mixK, rotl32]
+  · intro h a b; simp [Spec.tail, Spec.body, Spec.rotl, Spec.c1, Spec.c2, mixK, rotl32]
+  · intro h a; simp [Spec.tail, Spec.body, Spec.rotl, Spec.c1, Spec.c2, mixK, rotl32]
+  · intro h; simp [Spec.tail, Spec.body]
+
+/-- the model's `MurmurHash3` is the reference MurmurHash3_x86_32 -/
+theorem C09_murmur_eq_spec (seed : UInt32) (data : Bytes) :
+    MurmurHash3 seed data = Spec.murmur3 seed data := by
+  unfold MurmurHash3 Spec.murmur3
+  rw [C09_murmur_tail]; rfl
+
+/-! ## bit lemmas (`idx >>> 3`, `1 <<< (idx &&& 7)` on `UInt8`) -/
+
+/-- bit `k` of the array is bit `k % 8` (LSB first) of byte `k / 8`; indices outside the array read 0 -/
+theorem C09_testBit_spec (bits : Bytes) (k : Nat) :
+    testBit bits k = (bits.getD (k / 8) 0).toNat.testBit (k % 8) := testBit_eq bits k
+
+theorem C09_setBit_length (bits : Bytes) (i : Nat) : (setBit bits i).length = bits.length :=
+  setBit_length bits i
+
+theorem C09_testBit_setBit_self (bits : Bytes) (i : Nat) (hi : i / 8 < bits.length) :
+    testBit (setBit bits i) i = true := testBit_setBit_self bits i hi
+
+theorem C09_testBit_setBit_mono (bits : Bytes) (i j : Nat) (h : testBit bits j = true) :
+    testBit (setBit bits i) j = true := testBit_setBit_mono bits i j h
+
+/-- exact characterisation for an in-range index -/
+theorem C09_testBit_setBit (bits : Bytes) (i j : Nat) (hi : i / 8 < bits.length) :
+    testBit (setBit bits i) j = (testBit bits j || decide (i = j)) := testBit_setBit bits i j hi
+
+/-- … and for every index (an out-of-range `setBit` is a no-op) -/
+theorem C09_testBit_setBit_gen (bits : Bytes) (i j : Nat) :
+    testBit (setBit bits i) j
+      = (testBit bits j || (decide (i = j) && decide (i / 8 < bits.length))) :=
+  testBit_setBit_gen bits i j
+
+example : (11 : Nat) / 8 < ([0x00, 0x00] : Bytes).length := by decide
+example : setBit [0x00, 0x00] 11 = [0x00, 0x08] := by decide
+example : testBit [0x00, 0x08] 11 = true ∧ testBit [0x00, 0x08] 3 = false := by decide
+
+/-! ## bit index -/
+
+/-- `uint32(len) << 3` does not wrap within the wire limit, so the index is in range -/
+theorem hashIdx_lt (m : Msg) (i : Nat) (d : Bytes) (h0 : m.bits ≠ [])
+    (h : m.bits.length ≤ 36000) : hashIdx m i d < 8 * m.bits.length :=
+  Bch.Proofs.Bloom.hashIdx_lt m i d h0 h
+
+/-- the model's index is the BIP37 index (reference MurmurHash3, seed mod 2^32, modulo the
+number of bits) as long as the byte length is within the wire limit -/
+theorem C09_hashIdx_eq_BIP37 (m : Msg) (i : Nat) (d : Bytes) (h : m.bits.length ≤ 36000) :
+    hashIdx m i d = BIP37idx m.tweak i d m.bits.length := by
+  rw [hashIdx_eq_idxOf, idxOf_eq _ _ _ _ (by omega), seed_eq, C09_murmur_eq_spec]
+  rfl
+
+example : ([0x00, 0x00] : Bytes) ≠ [] ∧ ([0x00, 0x00] : Bytes).length ≤ 36000 := by decide
+
+/-! ## one insertion -/
+
+/-- an inserted item is matched — any loaded filter whose bit array has 0..36000 bytes, any
+`nHash`, `tweak`, `flags` (the empty bit array matches everything) -/
+theorem bloom_add_matches (m : Msg) (x : Bytes) (h : m.bits.length ≤ 36000) :
+    Matches (add (some m) x) x = true :=
+  add_matches (some m) x rfl (Lim_some.mpr h)
+
+/-- insertions never destroy a positive answer (no bound needed) -/
+theorem bloom_add_mono (f : Filter) (x y : Bytes) (h : Matches f y = true) :
+    Matches (add f x) y = true := add_mono f x y h
+
+/-- the empty bit array: matches everything, ignores insertions (behaviour after fix e6b8a4b) -/
+theorem C09_empty_bits (n : Nat) (t : UInt32) (fl : Nat) (x : Bytes) :
+    Matches (some ⟨[], n, t, fl⟩) x = true ∧ add (some ⟨[], n, t, fl⟩) x = some ⟨[], n, t, fl⟩ := by
+  constructor <;> rfl
+
+/-! ## unloaded filter -/
+
+theorem C09_unloaded (x : Bytes) : Matches none x = false ∧ add none x = none := ⟨rfl, rfl⟩
+
+/-- lifted to `step`: every operation except `reload` leaves an unloaded filter unloaded,
+insertions answer nothing, all queries (and `isLoaded`) answer `false` -/
+theorem C09_unloaded_step (op : Op) (h : ∀ m, op ≠ .reload m) :
+    (step none op).1 = none ∧
+      (step none op).2 = (match op with
+        | .query _ => some false
+        | .queryOutPoint _ _ => some false
+        | .isLoaded => some false
+        | _ => none) := by
+  cases op with
+  | reload m => exact absurd rfl (h m)
+  | _ => exact ⟨rfl, rfl⟩
+
+/-- a history without `reload` on an unloaded filter stays unloaded -/
+theorem C09_unloaded_run (ops : List Op) (h : ∀ op ∈ ops, ∀ m, op ≠ .reload m) :
+    run none ops = none := by
+  induction ops with
+  | nil => rfl
+  | cons op ops ih =>
+    rw [run_cons, (C09_unloaded_step op (h op (by simp))).1]
+    exact ih (fun o ho => h o (by simp [ho]))
+
+/-! ## histories: no false negatives -/
+
+/-- **Headline (invariant form).** Start from any filter state within the wire limit (in
+particular `some m0` with `m0.bits.length ≤ 36000`, or unloaded), run any history whose reloaded
+messages are within the limit: every item inserted (by `add`, `addHash`, `addOutPoint`) while
+loaded since the last `reload`/`unload` is matched by the resulting state.  As `ops` is
+arbitrary this holds for every prefix of every history. -/
+theorem C09_no_false_negatives (m0 : Msg) (ops : List Op) (h0 : m0.bits.length ≤ 36000)
+    (hops : WithinLimits ops = true) :
+    ∀ x ∈ inserted (some m0) ops, Matches (run (some m0) ops) x = true :=
+  inserted_matched (some m0) ops (Lim_some.mpr h0) hops
+
+/-- the same from an arbitrary (possibly unloaded) start state -/
+theorem C09_no_false_negatives_any_start (f0 : Filter) (ops : List Op)
+    (h0 : ∀ m, f0 = some m → m.bits.length ≤ 36000) (hops : WithinLimits ops = true) :
+    ∀ x ∈ inserted f0 ops, Matches (run f0 ops) x = true :=
+  inserted_matched f0 ops h0 hops
+
+/-- **Headline (positional form).** In the history `pre ++ [ins] ++ mid ++ [q]`: if the filter
+is loaded when `ins` inserts `x`, `mid` contains no `reload`/`unload`, and `q` queries `x`
+(`query x`, or `queryOutPoint h i` with `x = outPointBytes h i`), then `q` answers `some true`. -/
+theorem C09_no_false_negatives_positional (m0 : Msg) (pre mid : List Op) (ins q : Op)
+    (x : Bytes) (h0 : m0.bits.length ≤ 36000) (hops : WithinLimits pre = true)
+    (hloaded : (run (some m0) pre).isSome = true)
+    (hins : inserts ins = some x) (hmid : ∀ op ∈ mid, resets op = false)
+    (hq : queries q = some x) :
+    (step (run (some m0) (pre ++ ins :: mid)) q).2 = some true :=
+  query_after_insert (some m0) pre mid ins q x (Lim_some.mpr h0) hops hloaded hins hmid hq
+
+/-- `inserted` really records the insertions: a loaded insertion followed by operations that are
+neither `reload` nor `unload` is in the tracked list (so the invariant form is not vacuous) -/
+theorem C09_inserted_complete (f0 : Filter) (pre mid : List Op) (ins : Op) (x : Bytes)
+    (hloaded : (run f0 pre).isSome = true) (hins : inserts ins = some x)
+    (hmid : ∀ op ∈ mid, resets op = false) :
+    x ∈ inserted f0 (pre ++ ins :: mid) := by
+  unfold inserted
+  rw [List.foldl_append, List.foldl_cons]
+  have hst : x ∈ (track (List.foldl track (f0, []) pre) ins).2 := by
+    have hr : resets ins = false := by cases ins <;> simp [inserts] at hins <;> rfl
+    simp only [track, hr, hins, foldl_track_fst, hloaded]
+    simp
+  generalize track (List.foldl track (f0, []) pre) ins = s at hst
+  induction mid generalizing s with
+  | nil => exact hst
+  | cons op mid ih =>
+    rw [List.foldl_cons]
+    apply ih (fun o ho => hmid o (by simp [ho]))
+    have hr : resets op = false := hmid op (by simp)
+    simp only [track, hr]
+    cases inserts op with
+    | none => simpa using hst
+    | some z => by_cases hs : s.1.isSome = true <;> simp [hs, hst]
+
+/-! ## bit-exactness -/
+
+/-- **Bit-exact BIP37.** Insert `xs` into a loaded filter `⟨bits0, n, t, fl⟩` with a non-empty
+bit array within the wire limit. The result keeps `n`, `t`, `fl` and the length, bit `k` is set
+iff it was set before or is the BIP37 index of some inserted item under some hash function
+`i < n`, and the membership answer for `y` is exactly "all `n` BIP37 bits of `y` are set". -/
+theorem C09_bit_exact (bits0 : Bytes) (n : Nat) (t : UInt32) (fl : Nat) (xs : List Bytes)
+    (hne : bits0 ≠ []) (hlim : bits0.length ≤ 36000) :
+    ∃ bits, xs.foldl add (some ⟨bits0, n, t, fl⟩) = some ⟨bits, n, t, fl⟩ ∧
+      bits.length = bits0.length ∧
+      (∀ k, testBit bits k = true ↔
+        (testBit bits0 k = true ∨ ∃ x, x ∈ xs ∧ ∃ i, i < n ∧ BIP37idx t i x bits0.length = k)) ∧
+      (∀ y, Matches (some ⟨bits, n, t, fl⟩) y = true ↔
+        ∀ i, i < n → testBit bits (BIP37idx t i y bits0.length) = true) := by
+  let m : Msg := ⟨bits0, n, t, fl⟩
+  have hlen : (xs.foldl addMsg m).bits.length = bits0.length := foldl_addMsg_length m xs
+  have hn := foldl_addMsg_nHash m xs
+  have ht := foldl_addMsg_tweak m xs
+  have hf := foldl_addMsg_flags m xs
+  have hbits := testBit_foldl_addMsg m xs hne (by show bits0.length < 2 ^ 29; omega)
+  refine ⟨(xs.foldl addMsg m).bits, ?_, hlen, ?_, ?_⟩
+  · rw [foldl_add_some]
+    generalize xs.foldl addMsg m = r at hn ht hf
+    cases r; simp only [m] at hn ht hf; subst hn ht hf; rfl
+  · intro k
+    rw [hbits k]
+    have : ∀ i x, hashIdx m i x = BIP37idx t i x bits0.length :=
+      fun i x => C09_hashIdx_eq_BIP37 m i x hlim
+    simp only [this]; rfl
+  · intro y
+    have hne' : (xs.foldl addMsg m).bits ≠ [] := by
+      intro e; rw [e] at hlen; exact hne (List.eq_nil_of_length_eq_zero hlen.symm)
+    have hm : matchesMsg ⟨(xs.foldl addMsg m).bits, n, t, fl⟩ y = true ↔
+        ∀ i, i < n → testBit (xs.foldl addMsg m).bits
+          (hashIdx ⟨(xs.foldl addMsg m).bits, n, t, fl⟩ i y) = true :=
+      matchesMsg_iff ⟨(xs.foldl addMsg m).bits, n, t, fl⟩ y hne'
+    simp only [Matches]
+    rw [hm]
+    have : ∀ i, hashIdx ⟨(xs.foldl addMsg m).bits, n, t, fl⟩ i y = BIP37idx t i y bits0.length := by
+      intro i
+      rw [C09_hashIdx_eq_BIP37 _ _ _ (by show (xs.foldl addMsg m).bits.length ≤ 36000; omega)]
+      show BIP37idx t i y (xs.foldl addMsg m).bits.length = _
+      rw [hlen]
+    simp only [this]
+
+/-! ## outpoints -/
+
+/-- outpoints are serialised as txid followed by the 4-byte little-endian index, and the
+outpoint operations are the byte-string operations on that serialisation -/
+theorem C09_outpoint_encoding (h : Bytes) (idx : Nat) :
+    ∃ e : Bytes, outPointBytes h idx = h ++ e ∧ e.length = 4 ∧ Bytes.toNatLE e = idx % 2 ^ 32 ∧
+      e = [UInt8.ofNat (idx % 256), UInt8.ofNat (idx / 256 % 256),
+           UInt8.ofNat (idx / 256 / 256 % 256), UInt8.ofNat (idx / 256 / 256 / 256 % 256)] ∧
+      (∀ f, matchesOutPoint f h idx = Matches f (h ++ e)) ∧
+      (∀ f, addOutPoint f h idx = add f (h ++ e)) :=
+  ⟨Bytes.ofNatLE 4 idx, rfl, ofNatLE_length 4 idx, toNatLE_ofNatLE 4 idx, rfl,
+    fun _ => rfl, fun _ => rfl⟩
+
+example : outPointBytes [0xaa, 0xbb] 0x01020304 = [0xaa, 0xbb, 0x04, 0x03, 0x02, 0x01] := by decide
+
+/-! ## sizing -/
+
+/-- whatever the float computations of `NewFilter` produce, the two clamps keep the filter
+within the wire limits -/
+theorem C09_sizing_within_limits (a b : Nat) : (sizing a b).1 ≤ 36000 ∧ (sizing a b).2 ≤ 50 :=
+  sizing_within_limits a b
+
+example : sizing 1000000 1000 = (36000, 50) := by decide
+example : sizing 17 3 = (2, 3) := by decide
+
+/-! ## non-vacuity: published MurmurHash3 vectors and a concrete history -/
+
+-- test vectors of Bitcoin Core (`hash_tests.cpp`) for the reference formulation, incl. every
+-- tail length and a wrapped seed
+example : Spec.murmur3 0x00000000 [] = 0x00000000 := by decide
+example : Spec.murmur3 0xFBA4C795 [] = 0x6a396f08 := by decide
+example : Spec.murmur3 0xffffffff [] = 0x81f16f39 := by decide
+example : Spec.murmur3 0x00000000 [0x00] = 0x514e28b7 := by decide
+example : Spec.murmur3 0xFBA4C795 [0x00] = 0xea3f0b17 := by decide
+example : Spec.murmur3 0x00000000 [0xff] = 0xfd6cf10d := by decide
+example : Spec.murmur3 0x00000000 [0x00, 0x11] = 0x16c6b7ab := by decide
+example : Spec.murmur3 0x00000000 [0x00, 0x11, 0x22] = 0x8eb51c3d := by decide
+example : Spec.murmur3 0x00000000 [0x00, 0x11, 0x22, 0x33] = 0xb4471bf8 := by decide
+example : Spec.murmur3 0x00000000 [0x00, 0x11, 0x22, 0x33, 0x44] = 0xe2301fa8 := by decide
+example : Spec.murmur3 0x00000000 [0x00, 0x11, 0x22, 0x33, 0x44, 0x55] = 0xfc2e4a15 := by decide
+example : Spec.murmur3 0x00000000 [0x00, 0x11, 0x22, 0x33, 0x44, 0x55, 0x66] = 0xb074502c := by
+  decide
+example : Spec.murmur3 0x00000000 [0x00, 0x11, 0x22, 0x33, 0x44, 0x55, 0x66, 0x77] = 0x8034d2a0 := by
+  decide
+example : Spec.murmur3 0x00000000 [0x00, 0x11, 0x22, 0x33, 0x44, 0x55, 0x66, 0x77, 0x88]
+    = 0xb4698def := by decide
+example : MurmurHash3 0xFBA4C795 [0x00] = 0xea3f0b17 := by decide
+
+/-- a 2-byte filter with 3 hash functions and tweak 5 -/
+def exMsg : Msg := ⟨[0, 0], 3, 5, 0⟩
+
+/-- a history with queries before/after insertion, a reload, outpoints, an unload -/
+def exOps : List Op :=
+  [.query [1, 2, 3], .add [1, 2, 3], .query [1, 2, 3], .query [9],
+   .reload ⟨[0, 0, 0], 2, 7, 1⟩, .query [1, 2, 3], .addOutPoint [1] 7, .queryOutPoint [1] 7,
+   .unload, .query [1], .add [1], .query [1], .isLoaded]
+
+example : exMsg.bits.length ≤ 36000 ∧ WithinLimits exOps = true := by decide
+example : run (some exMsg) [.add [1, 2, 3]] = some ⟨[24, 32], 3, 5, 0⟩ := by decide
+example : [BIP37idx 5 0 [1, 2, 3] 2, BIP37idx 5 1 [1, 2, 3] 2, BIP37idx 5 2 [1, 2, 3] 2]
+    = [3, 13, 4] := by decide
+example : answers (some exMsg) exOps =
+    [some false, none, some true, some false, none, some false, none, some true, none,
+     some false, none, some false, some false] := by decide
+example : inserted (some exMsg) (exOps.take 3) = [[1, 2, 3]] := by decide
+example : inserted (some exMsg) (exOps.take 8) = [[1, 7, 0, 0, 0]] := by decide
+example : inserted (some exMsg) exOps = [] := by decide
+-- hypotheses of the positional form are satisfiable: `pre = [query]`, `ins = add`, `mid = []`
+example : (run (some exMsg) [.query [1, 2, 3]]).isSome = true ∧
+    inserts (.add [1, 2, 3]) = some [1, 2, 3] ∧ queries (.query [1, 2, 3]) = some [1, 2, 3] ∧
+    inserts (.addOutPoint [1] 7) = some [1, 7, 0, 0, 0] ∧
+    queries (.queryOutPoint [1] 7) = some [1, 7, 0, 0, 0] ∧
+    resets (.isLoaded) = false ∧ resets (.reload exMsg) = true := by decide
+
 end Bch.Props.C09
